@@ -88,7 +88,8 @@ PAIR_T = ["EditInput", "EditSwap", "EditCmd", "Build", "ToggleNoCache", "Taint"]
 # pool may produce).
 # (label, template, quick (acts, shape), thorough [(acts, shape), ...], commands, modes, selections, literal clean build)
 SHAPES = {
- "C01": [("pair: two outputs exchanged / no-cache / taint", "pair", (PAIR_Q, "BABAB"), [(PAIR_T, "BABAB"), (PAIR_Q, "BAABAB")], ["copy", "const"], ["all"], ["ALL"], True)],
+ "C01": [("pair: literally declared inputs that disappear and reappear under the other name", "pair", None, [(["EditInput", "EditAbsent", "Build"], "BAABAAB:first:nodelay")], ["copy"], ["all"], ["ALL"], False),
+         ("pair: two outputs exchanged / no-cache / taint", "pair", (PAIR_Q, "BABAB"), [(PAIR_T, "BABAB"), (PAIR_Q, "BAABAB")], ["copy", "const"], ["all"], ["ALL"], True)],
  "C02": [("pair: two outputs exchanged / no-cache / taint", "pair", (PAIR_Q, "BABAB"), [(PAIR_T, "BABAB"), (PAIR_Q, "BAABAB")], ["copy", "const"], ["all"], ["ALL"], False)],
  "C13": [("pair: two outputs exchanged / no-cache / taint", "pair", (PAIR_Q, "BABAB"), [(PAIR_T + ["BuildCacheOff"], "BABAB"), (PAIR_Q, "BAABAB")], ["copy", "const"], ["all"], ["ALL"], False)],
  "C15": [("pair minimal: two outputs exchanged / no-cache / taint", "pair", (PAIR_Q, "BABAB"), [(PAIR_T, "BABAB"), (PAIR_Q, "BAABAB")], ["copy", "const"], ["minimal"], ["ALL"], False)],
@@ -126,10 +127,13 @@ def run(chk, tmp, prop):
         chk.add_tlc(f"GrogBuildGen canonical/{style} (full build; {(dq if quick else dt) - 2} actions; build): {label}", res, histories=len(hs))
         be.run_histories(chk, tmp, grog, hs, prop, lit, "canonical " + label)
     for j, (label, template, qs, ts, cmds, modes, sels, lit) in enumerate(SHAPES.get(prop, [])):
-        for jj, (acts, shape) in enumerate([qs] if quick else ts):
-            res, hs = be.generate(tmp, f"h{j}_{jj}", template, acts, cmds, modes, sels, 0, 0, chk.seed, shape=shape)
+        for jj, (acts, shape) in enumerate(([qs] if qs else []) if quick else ts):
+            shape, canon, nodelay = (shape.split(":") + ["", ""])[:3]
+            res, hs = be.generate(tmp, f"h{j}_{jj}", template, acts, cmds, modes, sels, 0, 0, chk.seed, shape=shape, canonical=canon or "off")
             chk.add_tlc(f"GrogBuildGen shaped ({shape}): {label}", res, histories=len(hs))
             be.run_histories(chk, tmp, grog, hs, prop, lit, f"shaped {shape} {label}")
+            if nodelay:
+                continue
             be.run_histories(chk, tmp, grog, hs, prop, False, f"shaped {shape}, first output digest delayed in every other build: {label}",
                              opts_of=lambda i: {"workers": 1 + i % 4, "hash": ["", "sha256"][i % 2], "delay_alt": "outhash.pr_p_o0/1=60,outwrite.pr_p_o0/1=60"})
     if prop == "C13":
